@@ -147,6 +147,34 @@ Fixpoint pmigrate_gens (gens : list (ptable * Z)) (tnew : ptable) (newL budget c
     end
   end.
 
+(* ---- HashSet::pvFind over the GENERATED BucketLimP4::Find / GetNextBucketIndex / BucketBase::GetMaxProbe; WasFull by hand ----
+   the generated Find returns items + i or the null pointer 0; items = 1 here, so r = i + 1 or 0 *)
+Definition pbucket_find (b : pbucket) (key h : Z) : outcome Z :=
+  Gen_P4.Find (ps b) (fun i => pky b i =? key) h 1.
+
+Fixpoint pfind_loop (fuel : nat) (t : ptable) (bc idx probe maxProbe key h : Z) {struct fuel} : outcome (option (Z * Z)) :=
+  match fuel with
+  | O => Fuel
+  | S f =>
+    if was_full (t idx) && (probe <=? maxProbe) then
+      let idx' := Gen_P4.GetNextBucketIndex idx bc in
+      match pbucket_find (t idx') key h with
+      | Ok r => if r =? 0 then pfind_loop f t bc idx' (wrapU 64 (probe + 1)) maxProbe key h else Ok (Some (idx', r - 1))
+      | Stuck => Stuck | Fuel => Fuel | Exn => Exn
+      end
+    else Ok None
+  end.
+
+Definition pfind (t : ptable) (L key h : Z) : outcome (option (Z * Z)) :=
+  let bc := wrapU 64 (Z.shiftl 1 L) in
+  let start := Gen_Base.GetStartBucketIndex h bc in
+  match pbucket_find (t start) key h with
+  | Ok r =>
+    if r =? 0 then pfind_loop (S (Z.to_nat bc)) t bc start 1 (Gen_Base.GetMaxProbe L) key h
+    else Ok (Some (start, r - 1))
+  | Stuck => Stuck | Fuel => Fuel | Exn => Exn
+  end.
+
 Fixpoint pinsert_all (t : ptable) (L : Z) (keys : list Z) : outcome ptable :=
   match keys with
   | [] => Ok t
